@@ -16,6 +16,7 @@ class Driver:
         self.kw = kw
         self.s = None
         self.history = []
+        self.partial = []
 
     def _run(self, coro):
         return self.loop.run_until_complete(coro)
@@ -65,7 +66,7 @@ class Driver:
             return s.get_many(*args)
         if op in ("getnext", "getbulk", "fetch"):
             it = getattr(s, op)(*args)
-            out = []
+            out = self.partial = []   # what was yielded so far stays observable if the walk raises
             for x in it:
                 out.append(x)
                 if len(out) >= limit:
@@ -92,7 +93,7 @@ class Driver:
         if op == "get_many":
             return await s.get_many(*args)
         if op in ("getnext", "getbulk", "fetch"):
-            out = []
+            out = self.partial = []
             async for x in getattr(s, op)(*args):
                 out.append(x)
                 if len(out) >= limit:
